@@ -154,7 +154,7 @@ def ev_impl(e, leaves, n):
         if op == "imag":
             return x.imag
         if op == "conj":
-            return x.conjugate()
+            return x.conjugate
         if op == "cabs":
             return x.abs
         if op == "phase":
@@ -858,7 +858,7 @@ def run_case(c):
             ref = ev_ref(e, ctx)
             if not np.all(np.isfinite(ref.fl)):
                 raise FloatingPointError("non-finite result")
-    except FloatingPointError:
+    except (FloatingPointError, ZeroDivisionError, OverflowError):
         ref_err = "nonfinite"
     except Exception as ex:  # noqa: BLE001  (shape mismatch etc.: the expression is not well formed)
         ref_err = type(ex).__name__
@@ -866,6 +866,8 @@ def run_case(c):
     leaf_obs = [field_obs(f, meshes) for f in leaves]
     obs = dict(status=st, err=None if st == "ok" else r)
     key = f'{c["kind"]}/{st}/{shape_key(e, c)}'
+    if st == "ok" and not np.all(np.isfinite(np.asarray(r.array))):
+        ref_err = "nonfinite"
     if ref_err == "nonfinite":
         # division by zero / overflow somewhere: only the operand snapshot clause applies
         rec.update(obs=obs, coq=None, key=key + "/nonfinite", size=size, nontrivial=False)
